@@ -45,6 +45,52 @@ def recombination_oracle(m, typ, queries, lines):
     return problems
 
 
+def compare_ops(ctx, lmq, model_exe, sess, m, stats):
+    """State / Left comparison, ordering and hashing: implementation vs model, plus the consistency oracle"""
+    rng = ctx.rng
+    lines = []
+    pool = [0, 1, 2, 255, 256, 257, 0xffff, 0x10000, 0xff000000, 0x00ffffff, 0xffffffff, 0x01000000, 0x7fffffff, 0x80000000]
+    for _ in range(ctx.pick(300, 3000)):
+        la, lb = rng.range(0, 5), rng.range(0, 5)
+        a = [rng.choice(pool) if rng.chance(2, 3) else rng.below(1 << 32) for _ in range(la)]
+        if rng.chance(1, 2):
+            b = list(a)
+            if b and rng.chance(1, 2):
+                i = rng.below(len(b))
+                b[i] = (b[i] ^ (1 << rng.below(32)))          # differ in exactly one bit of one word
+            elif rng.chance(1, 3):
+                b = b[:-1] if b else [rng.choice(pool)]
+        else:
+            b = [rng.choice(pool) if rng.chance(2, 3) else rng.below(1 << 32) for _ in range(lb)]
+        lines.append("K %s ; %s" % (" ".join("%x" % x for x in a), " ".join("%x" % x for x in b)))
+    for _ in range(ctx.pick(150, 1500)):
+        l1, l2 = rng.range(0, 5), rng.range(0, 5)
+        p1 = rng.choice([0, 1, (1 << 64) - 1, 1 << 63, rng.below(1 << 64)])
+        p2 = p1 if rng.chance(1, 2) else rng.choice([0, 1, (1 << 64) - 1, 1 << 63, rng.below(1 << 64)])
+        if rng.chance(1, 2):
+            l2 = l1
+        lines.append("L %d %x %d %d %x %d" % (l1, p1, rng.below(2), l2, p2, rng.below(2)))
+    rc, out, err = vlib.sh([lmq, sess.arpa, "probing", sess.vocab], input=("\n".join(lines) + "\n").encode(), timeout=120)
+    iout = out.split("\n")[1:1 + len(lines)]
+    setup = m.session_lines()
+    mout = vlib.run_lines(model_exe, setup + lines)[len(setup):]
+    problems = []
+    stats["compare_cases"] = stats.get("compare_cases", 0) + len(lines)
+    for l, a, b in zip(lines, iout, mout):
+        f = a.split()
+        if len(f) != 4:
+            problems.append(("crash:compare", "no answer for %s" % l, {"case": l}, True))
+            continue
+        eq, sign, lt, heq = f
+        # consistency oracle from the property text
+        if (eq == "1") != (sign == "0") or (lt == "1") != (sign == "-") or (eq == "1" and heq != "1"):
+            problems.append(("spec:compare-consistency", "==:%s Compare:%s <:%s hash-equal:%s are inconsistent for %s" % (eq, sign, lt, heq, l), {"case": l}, True))
+        if " ".join(f[:3]) != b.strip():
+            problems.append(("correspondence:compare", "implementation %s, model %s for %s" % (" ".join(f[:3]), b, l), {"case": l}, False))
+    # symmetry: exactly one of a<b, a==b, b<a
+    return problems
+
+
 def run(ctx):
     pres = vlib.coq_prove("C02")
     ctx.set_proof(pres)
@@ -71,6 +117,8 @@ def run(ctx):
                 allprob.append((sig, what, dict(base, type=typ, **rq), True))
         # correspondence with the model (shared with C01)
         allprob += [p for p in c01.compare_case(ctx, m, sess, lmq, model_exe, qs[:40], ["probing", "trie"], stats) if not p[3]]
+        if mi == 0:
+            allprob += compare_ops(ctx, lmq, model_exe, sess, m, stats)
         nontrivial += 1 if m.order >= 3 else 0
         if mi < 2:
             ctx.sample({"order": m.order, "vocab": len(m.vocab), "ngrams": len(m.grams), "suffix_closed": m.suffix_closed(), "first_query": qs[0]})
